@@ -27,6 +27,7 @@ type parserASTNode = ecalparser.ASTNode
 var ecalPrettyPrint = ecalparser.PrettyPrint
 
 type c08x struct {
+	canon  map[string]string // parameter name of ppNeedsBrackets -> parent / child / childIndex
 	consts map[string]string // NodeXXX -> value
 	ok     bool
 	why    []string
@@ -60,26 +61,26 @@ func (x *c08x) term(e ast.Expr) string {
 			return leanStr(s)
 		}
 	case *ast.Ident:
-		if v.Name == "childIndex" {
+		if x.canon[v.Name] == "childIndex" {
 			return "childIndex"
 		}
 		if c, ok := x.consts[v.Name]; ok {
 			return leanStr(c)
 		}
 	case *ast.SelectorExpr:
-		if id, ok := v.X.(*ast.Ident); ok && (id.Name == "parent" || id.Name == "child") {
+		if id, ok := v.X.(*ast.Ident); ok && (x.canon[id.Name] == "parent" || x.canon[id.Name] == "child") {
 			switch v.Sel.Name {
 			case "binding":
-				return id.Name + ".binding"
+				return x.canon[id.Name] + ".binding"
 			case "Name":
-				return id.Name + ".name"
+				return x.canon[id.Name] + ".name"
 			}
 		}
 	case *ast.CallExpr:
 		if fn, ok := v.Fun.(*ast.Ident); ok && fn.Name == "len" && len(v.Args) == 1 {
 			if sel, ok := v.Args[0].(*ast.SelectorExpr); ok && sel.Sel.Name == "Children" {
-				if id, ok := sel.X.(*ast.Ident); ok && (id.Name == "parent" || id.Name == "child") {
-					return id.Name + ".nch"
+				if id, ok := sel.X.(*ast.Ident); ok && (x.canon[id.Name] == "parent" || x.canon[id.Name] == "child") {
+					return x.canon[id.Name] + ".nch"
 				}
 			}
 		}
@@ -96,10 +97,10 @@ func isNil(e ast.Expr) bool {
 	return ok && id.Name == "nil"
 }
 
-func ldOf(e ast.Expr) (string, bool) {
+func (x *c08x) ldOf(e ast.Expr) (string, bool) {
 	if sel, ok := e.(*ast.SelectorExpr); ok && sel.Sel.Name == "leftDenotation" {
-		if id, ok := sel.X.(*ast.Ident); ok && (id.Name == "parent" || id.Name == "child") {
-			return id.Name, true
+		if id, ok := sel.X.(*ast.Ident); ok && (x.canon[id.Name] == "parent" || x.canon[id.Name] == "child") {
+			return x.canon[id.Name], true
 		}
 	}
 	return "", false
@@ -125,7 +126,7 @@ func (x *c08x) cond(e ast.Expr) string {
 		case token.LAND:
 			return "(" + x.cond(v.X) + " && " + x.cond(v.Y) + ")"
 		case token.EQL, token.NEQ:
-			if who, ok := ldOf(v.X); ok && isNil(v.Y) {
+			if who, ok := x.ldOf(v.X); ok && isNil(v.Y) {
 				if v.Op == token.EQL {
 					return "(!" + who + ".hasLd)"
 				}
@@ -191,7 +192,7 @@ func c08Tool(args []string) int {
 		fmt.Fprintln(os.Stderr, "usage: harness C08 -tool gen <out.lean>")
 		return 2
 	}
-	x := &c08x{consts: map[string]string{}, ok: true}
+	x := &c08x{consts: map[string]string{}, canon: map[string]string{}, ok: true}
 
 	// node names
 	_, cf, err := c08ParseFile("const.go")
@@ -318,8 +319,10 @@ func c08Tool(args []string) int {
 				pnames = append(pnames, n.Name)
 			}
 		}
-		if strings.Join(pnames, ",") != "parent,child,childIndex" {
+		if len(pnames) != 3 {
 			x.fail("ppNeedsBrackets parameters are %v", pnames)
+		} else {
+			x.canon = map[string]string{pnames[0]: "parent", pnames[1]: "child", pnames[2]: "childIndex"}
 		}
 		for i, st := range fd.Body.List {
 			switch v := st.(type) {
